@@ -1,6 +1,7 @@
 package props
 
 import (
+	"go/token"
 	"fmt"
 	"regexp"
 
@@ -25,6 +26,12 @@ func init() {
 }
 
 func c09Rules(tier string) []Rule {
+	rules := c09RulesBase(tier)
+	rules = append(rules, errClassifier("C09.ERRC1", "NodeClaimNotFoundError", true)...)
+	return rules
+}
+
+func c09RulesBase(tier string) []Rule {
 	const (
 		fin   = "(*term.Controller).finalize"
 		rmf   = "(*term.Controller).removeFinalizer"
@@ -110,9 +117,12 @@ func c09Rules(tier string) []Rule {
 		// ---- Terminator.Drain
 		MPT{ID: "C09.MPT1", Fn: drain, Ret: core.RetNilConst, Gates: gates(
 			G(`+^utils/node\.GetPods\(\$0\.kubeClient, .*\)#1 == nil$`),
-			G(`-^len\(phi\(nil\|phi↺\|append\(phi↺, …\[:\]\)\)\)>=1$`),
+			G(`-^len\(phi\(nil\|phi↺\|append\(.*\)\)\)>=1$`),
 			G(`-^\(phi\(-1\|\(phi↺ \+ 1\)\) \+ 1\) < len\(\(\*tor\.Terminator\)\.groupPodsByPriority\(`),
 		)},
+		// …and the batch whose emptiness ends the drain is the force-delete batch itself (the list handed to the
+		// tier-bypassing Queue.Add), identified as an SSA value: the two batches render alike
+		core.Custom{ID: "C09.MPT1b", Kind: "MPT", Run: c09BypassBatchEmpty},
 		IMPL{ID: "C09.IMPL1", Fn: drain, Lit: `+^len\(\(\*tor\.Terminator\)\.groupPodsByPriority\(.*\)\[.*\]\)>=1$`, Not: core.RetOK},
 		core.Custom{ID: "C09.PROV2", Kind: "PROV", Run: c09DrainPartition},
 
@@ -195,10 +205,19 @@ func c09DrainPartition(w *core.World, id string) []core.Result {
 		return []core.Result{core.Bad(id, "PROV", "PROV:"+drain+":waiting", w.Pos(pred.Pos()), "the waiting set is no longer exactly the pods for which IsWaitingEviction holds")}
 	}
 	fn := w.Fn(drain)
-	// both branches of needsForceDelete append the pod
-	p := POST{ID: id, Fn: drain, FromLit: `?^tor\.needsForceDelete\(lo\.Filter\[`, Must: []string{`^call append\(phi\(nil\|`}}
-	rs := p.Check(w)
-	_ = fn
+	// both branches of needsForceDelete append the pod (in Drain itself, or in the private helper the split was moved to)
+	var rs []core.Result
+	w.WithHelpers(fn, func(f *ssa.Function, _ ssa.Instruction) {
+		if len(rs) > 0 && rs[0].Status == core.Discharged {
+			return
+		}
+		p := POST{ID: id, Fn: core.FnName(f), FromLit: `?^tor\.needsForceDelete\(lo\.Filter\[`, Must: []string{`^call append\(phi\(nil\|`}}
+		if r := p.Check(w); len(rs) == 0 || (len(r) > 0 && r[0].Status == core.Discharged) || f == fn {
+			if len(rs) == 0 || r[0].Status == core.Discharged {
+				rs = r
+			}
+		}
+	})
 	return rs
 }
 
@@ -238,4 +257,97 @@ func c09GroupsReturned(w *core.World, id string) []core.Result {
 		return []core.Result{core.Bad(id, "REG", construct, w.Pos(fn.Pos()), "no append found (idiom not recognised)")}
 	}
 	return []core.Result{core.OK(id, "REG", construct, n, "every accumulated slice is returned")}
+}
+
+// c09BypassBatchEmpty: Drain returns nil only across a false edge of `len(B) > 0` where B is the very value handed to the
+// tier-bypassing Queue.Add (pods past their force-delete time), not merely a list that renders like it.
+func c09BypassBatchEmpty(w *core.World, id string) []core.Result {
+	const drain = "(*tor.Terminator).Drain"
+	fn := w.Fn(drain)
+	if fn == nil {
+		return []core.Result{core.Anchor(id, "MPT", drain)}
+	}
+	construct := "MPT:" + drain + ":bypass-batch-empty"
+	var bypass ssa.Value
+	for _, s := range w.Sites(fn, regexp.MustCompile(`^call \(\*tor\.Queue\)\.Add\(\$0\.evictionQueue, \$3, `), false) {
+		if a := s.(*ssa.Call).Call.Args[2]; !regexp.MustCompile(`groupPodsByPriority\(`).MatchString(w.Render(a)) {
+			bypass = a
+		}
+	}
+	if bypass == nil {
+		return []core.Result{core.Bad(id, "MPT", construct, w.Pos(fn.Pos()), "vacuous: the tier-bypassing Add was not found")}
+	}
+	cut := core.NewCut()
+	n := 0
+	for _, b := range fn.Blocks {
+		if len(b.Instrs) == 0 || len(b.Succs) != 2 {
+			continue
+		}
+		ifi, ok := b.Instrs[len(b.Instrs)-1].(*ssa.If)
+		if !ok {
+			continue
+		}
+		// len(B) > 0, 0 < len(B), len(B) != 0, len(B) >= 1 and their negations: find the edge on which len(B) == 0
+		cond, neg := ifi.Cond, false
+		for {
+			u, isNot := cond.(*ssa.UnOp)
+			if !isNot || u.Op != token.NOT {
+				break
+			}
+			neg = !neg
+			cond = u.X
+		}
+		bo, ok := cond.(*ssa.BinOp)
+		if !ok {
+			continue
+		}
+		isLenB := func(v ssa.Value) bool {
+			c, ok := v.(*ssa.Call)
+			if !ok {
+				return false
+			}
+			bi, ok := c.Call.Value.(*ssa.Builtin)
+			return ok && bi.Name() == "len" && len(c.Call.Args) == 1 && c.Call.Args[0] == bypass
+		}
+		isK := func(v ssa.Value, k int64) bool {
+			c, ok := v.(*ssa.Const)
+			return ok && c.Value != nil && c.Int64() == k
+		}
+		emptyOnTrue, found := false, false
+		switch {
+		case isLenB(bo.X) && isK(bo.Y, 0) && (bo.Op == token.GTR || bo.Op == token.NEQ), isK(bo.X, 0) && isLenB(bo.Y) && (bo.Op == token.LSS || bo.Op == token.NEQ),
+			isLenB(bo.X) && isK(bo.Y, 1) && bo.Op == token.GEQ:
+			emptyOnTrue, found = false, true
+		case isLenB(bo.X) && isK(bo.Y, 0) && (bo.Op == token.EQL || bo.Op == token.LEQ), isK(bo.X, 0) && isLenB(bo.Y) && bo.Op == token.EQL,
+			isLenB(bo.X) && isK(bo.Y, 1) && bo.Op == token.LSS:
+			emptyOnTrue, found = true, true
+		}
+		if !found {
+			continue
+		}
+		n++
+		e := 1
+		if emptyOnTrue != neg {
+			e = 0
+		}
+		cut.Edges[core.EdgeKey{From: b, Succ: e}] = true
+	}
+	if n == 0 {
+		return []core.Result{core.Bad(id, "MPT", construct, w.Pos(fn.Pos()), "the force-delete batch is never tested for emptiness")}
+	}
+	var out []core.Result
+	k := 0
+	for _, s := range w.ReturnSinks(fn, core.RetNilConst) {
+		k++
+		if core.InstrReachable(s.Ret, cut) {
+			out = append(out, core.Bad(id, "MPT", construct, w.InstrPos(s.Ret), "Drain reports the node drained on a path that never found the force-delete batch empty (pods past their deadline may still be on the node)"))
+		}
+	}
+	if k == 0 {
+		return []core.Result{core.Bad(id, "MPT", construct, w.Pos(fn.Pos()), "vacuous: no `return nil`")}
+	}
+	if len(out) == 0 {
+		out = append(out, core.OK(id, "MPT", construct, n, "drained ⇒ the force-delete batch was empty"))
+	}
+	return out
 }
